@@ -31,12 +31,14 @@ type Proto struct {
 var Keys = []evgen.Key{evgen.NewKey("a.org", "ed25519:1", 1), evgen.NewKey("b.org", "ed25519:k2", 2)}
 
 func ids(version string, n int) []string {
+	const letters = "pqrstuvwxyzabcdefghijklmnoABCDEFGHIJKLMNOPQRSTUVWXYZ0123456789"
 	out := []string{}
 	for i := 0; i < n; i++ {
+		c := string(letters[i%len(letters)])
 		if refversions.Get(version).EventFormat == 1 {
-			out = append(out, "$"+strings.Repeat(string(rune('p'+i)), 5)+":a.org")
+			out = append(out, "$"+strings.Repeat(c, 5)+":a.org")
 		} else {
-			out = append(out, "$"+strings.Repeat(string(rune('p'+i)), 43))
+			out = append(out, "$"+strings.Repeat(c, 43))
 		}
 	}
 	return out
@@ -80,7 +82,10 @@ func Protos(version string, full bool) []Proto {
 	uns := []string{""}
 	signers := []int{0}
 	if full {
-		lists = [][2]int{{0, 0}, {1, 1}, {2, 1}, {1, 2}, {2, 2}, {3, 3}, {1, 5}}
+		// the library puts no limit on the number of references; the long lists (around the 10 / 20 of the specification's
+		// receipt limits, and 10 listed auth events in room version 12 where the create event is implied on top) go with one
+		// depth / unsigned / signer setting only
+		lists = [][2]int{{0, 0}, {1, 1}, {2, 1}, {1, 2}, {2, 2}, {3, 3}, {1, 5}, {10, 10}, {21, 11}, {20, 9}, {40, 25}}
 		depths = []int64{0, 1, 9007199254740991}
 		uns = []string{"", `{"age":1}`}
 		signers = []int{0, 1}
@@ -92,6 +97,9 @@ func Protos(version string, full bool) []Proto {
 				for _, d := range depths {
 					for _, u := range uns {
 						for _, s := range signers {
+							if (l[0] > 5 || l[1] > 5) && !(d == 1 && u == "" && s == 0) {
+								continue
+							}
 							sender := "@u:" + Keys[s].Server
 							p := Proto{Type: t.Type, StateKey: t.StateKey, Sender: sender, Content: c, Prev: ids(version, l[0]), Auth: ids(version, l[1]), Depth: d, Unsigned: u, Redacts: t.Redacts, TS: 1_700_000_000_000, Signer: s}
 							out = append(out, p)
